@@ -3,7 +3,7 @@ EXTENDS TxCache, Json
 CONSTANT Depth
 LogAppend(h, r) == Append(h, r)
 LogLast(h, r) == <<r>>
-C(pev, pnb, pcnt, psb, psc, pne) == [ev |-> pev, nb |-> pnb, cnt |-> pcnt, sb |-> psb, sc |-> psc, ne |-> pne]
+C(pev, pnb, pcnt, psb, psc, pne) == [ev |-> pev, nb |-> pnb, cnt |-> pcnt, sb |-> psb, sc |-> psc, ne |-> pne, glo |-> 2, ghi |-> 2]
 \* C25: small sender limits (count 2..3, bytes 3..5 with sizes 1/3), eviction off / on with thresholds 4 (the minimum
 \* the configuration check accepts), eviction batch 1 / 2; plus configurations the check rejects
 CfgC25Quick == {C(FALSE, 0, 0, 4, 2, 0), C(TRUE, 4, 4, 5, 3, 1), C(TRUE, 6, 4, 3, 2, 2)}
